@@ -1,3 +1,4 @@
+\* MUST FAIL, and by this invariant: only Partition is checked here (with several workers TLC reports whichever violation it meets first)
 SPECIFICATION Spec
 CONSTANTS
   MaxData = 4
@@ -5,9 +6,5 @@ CONSTANTS
   LaneSet = {0, 1}
   LeakIndex = TRUE
 INVARIANT Partition
-INVARIANT Maximal
-INVARIANT FileOrder
-INVARIANT OnePerTickSorted
-INVARIANT Bounded
 
 CHECK_DEADLOCK FALSE
